@@ -276,4 +276,6 @@ def run(tier):
     # leaks the scopes *and* lets the handler read the inner bindings)
     import c14
     c14.handler_unwind(fx, ck, name="R3b.handler-scope")
+    import c01b
+    c01b.run(fx, ck, OP)
     return ck.finish()
